@@ -3,6 +3,7 @@
 // what backtrack_edge_tree may assume about an edge tree (by key, as `==` on nodes is by key):
 // targets pairwise distinct, every source is the root or an earlier target, and only the last
 // edge may lead back to the root
+#[verifier::opaque]
 pub open spec fn bt_tree<K, N, E>(t: Seq<Edge<K, N, E>>, rootk: K) -> bool {
     &&& t.len() > 0
     &&& forall|i: int, j: int| 0 <= i < j < t.len() ==> (#[trigger] t[i]).1.k() != (#[trigger] t[j]).1.k()
@@ -20,6 +21,7 @@ pub open spec fn subseq_by<K, N, E>(p: Seq<Edge<K, N, E>>, t: Seq<Edge<K, N, E>>
 // the path returned for tree t: ends with t's last edge, starts at the root, consecutive edges
 // joined, a subsequence of t (so every edge is an edge of t, none twice), no intermediate
 // node is the root
+#[verifier::opaque]
 pub open spec fn bt_path<K, N, E>(p: Seq<Edge<K, N, E>>, t: Seq<Edge<K, N, E>>, rootk: K) -> bool {
     &&& p.len() > 0
     &&& p.last() == t.last()
@@ -45,6 +47,7 @@ pub proof fn lemma_rev_chain_finish<K, N, E>(rp: Seq<Edge<K, N, E>>, t: Seq<Edge
         forall|j: int| 0 <= j < ridx.last() ==> (#[trigger] t[j]).1.k() != rp.last().0.k(),
     ensures bt_path(rp.reverse(), t, rootk)
 {
+    reveal(bt_tree); reveal(bt_path);
     let p = rp.reverse();
     let idx = ridx.reverse();
     let n = rp.len() as int;
@@ -91,6 +94,7 @@ pub proof fn lemma_tree_bt<K, N, E>(r: Seq<Edge<K, N, E>>, root: Node<K, N, E>, 
         forall|i: int| 0 <= i < r.len() - 1 ==> (#[trigger] r[i]).1.k() != root.k(),
     ensures bt_tree(r, root.k())
 {
+    reveal(bt_tree);
     reveal(tree);    assert forall|i: int| 0 <= i < r.len() implies (#[trigger] r[i]).0.k() == root.k() || exists|j: int| 0 <= j < i && r[j].1.k() == r[i].0.k() by {
         if r[i].0 != root {
             let j = choose|j: int| 0 <= j < i && r[j].1 == r[i].0;
@@ -108,6 +112,7 @@ pub proof fn lemma_bt_is_path<K, N, E>(p: Seq<Edge<K, N, E>>, r: Seq<Edge<K, N, 
         forall|m: int, n: int| 0 <= m < n < p.len() ==> (#[trigger] p[m]).1.k() != (#[trigger] p[n]).1.k(),
         forall|m: int| 1 <= m < p.len() ==> (#[trigger] p[m]).0.k() != root.k(),
 {
+    reveal(bt_path); reveal(is_path); reveal(keys_distinct);
     reveal(tree);    let idx = choose|idx: Seq<int>| subseq_by(p, r, idx);
     assert forall|m: int| 0 <= m < p.len() implies universe::<K, N, E>().contains((#[trigger] p[m]).0) && universe::<K, N, E>().contains(p[m].1) && in_adj(p[m], adj) && acc(p[m]) by {
         let e = r[idx[m]];
@@ -135,6 +140,7 @@ pub open spec fn closes_last<K, N, E>(t: Seq<Edge<K, N, E>>, rootk: K) -> bool {
 // extracted from: existing accepted edges joined end to start from the root to the target of
 // r's last edge, no node entered twice, no intermediate node is the root, every edge is an
 // edge of r
+#[verifier::opaque]
 pub open spec fn good_path<K, N, E>(p: Seq<Edge<K, N, E>>, r: Seq<Edge<K, N, E>>, root: Node<K, N, E>, acc: spec_fn(Edge<K, N, E>) -> bool, adj: spec_fn(Node<K, N, E>) -> Seq<Edge<K, N, E>>) -> bool {
     &&& is_path(p, root, acc, adj)
     &&& p.last() == r.last()
@@ -143,11 +149,19 @@ pub open spec fn good_path<K, N, E>(p: Seq<Edge<K, N, E>>, r: Seq<Edge<K, N, E>>
     &&& exists|idx: Seq<int>| subseq_by(p, r, idx)
 }
 
+pub proof fn lemma_bt_path_last<K, N, E>(p: Seq<Edge<K, N, E>>, t: Seq<Edge<K, N, E>>, rootk: K)
+    requires bt_path(p, t, rootk)
+    ensures p.len() > 0, p.last() == t.last()
+{
+    reveal(bt_path);
+}
+
 pub proof fn lemma_good_path<K, N, E>(p: Seq<Edge<K, N, E>>, r: Seq<Edge<K, N, E>>, root: Node<K, N, E>, acc: spec_fn(Edge<K, N, E>) -> bool, adj: spec_fn(Node<K, N, E>) -> Seq<Edge<K, N, E>>)
     requires graph_ok(adj), universe::<K, N, E>().contains(root), tree(r, root, acc, adj), r.len() > 0, closes_last(r, root.k()),
         bt_tree(r, root.k()) ==> bt_path(p, r, root.k()),
     ensures good_path(p, r, root, acc, adj)
 {
+    reveal(good_path); reveal(bt_path);
     lemma_tree_bt(r, root, acc, adj);
     lemma_bt_is_path(p, r, root, acc, adj);
 }
